@@ -378,7 +378,7 @@ def build_record(case: Dict[str, Any]) -> Any:
     for f in case.get("input", []):
         bio.features.append(SeqFeature(_bio_location(f["loc"]), type=f["type"],
                                        qualifiers={k: list(v) for k, v in f["quals"]}))
-    rec = Record.from_biopython(bio, "bacteria")
+    rec = Record.from_biopython(bio, case.get("taxon", "bacteria"))
 
     for ann in case.get("annot", []):
         cds = rec.get_cds_by_name(ann["cds"])
@@ -490,10 +490,10 @@ def write_text(rec: Any) -> str:
     return handle.getvalue()
 
 
-def read_text(text: str) -> Any:
+def read_text(text: str, taxon: str = "bacteria") -> Any:
     from Bio import SeqIO
     from antismash.common.secmet import Record
-    return Record.from_biopython(list(SeqIO.parse(io.StringIO(text), "genbank"))[0], "bacteria")
+    return Record.from_biopython(list(SeqIO.parse(io.StringIO(text), "genbank"))[0], taxon)
 
 
 def json_text(rec: Any) -> bytes:
@@ -501,9 +501,9 @@ def json_text(rec: Any) -> bytes:
     return ajson.dumps(serialiser.record_to_json(rec.to_biopython()))
 
 
-def read_json(text: Any) -> Any:
+def read_json(text: Any, taxon: str = "bacteria") -> Any:
     from antismash.common import json as ajson, serialiser
-    return serialiser.record_from_json(ajson.loads(text), "bacteria")
+    return serialiser.record_from_json(ajson.loads(text), taxon)
 
 
 # ----------------------------------------------------------------------------- the property
@@ -594,6 +594,10 @@ class C10(Property):
                "white space only in str.split()",
                "constructor validation (feature type length, product syntax, overlapping exons) and CDS name/location "
                "uniqueness checks are not modelled; generated inputs are valid",
+               "the taxon: records are built and read back (both paths) with the same taxon, bacteria or fungi; only the "
+               "bacterial NCBI clean-up of misc_feature locations and the record-topology test for origin-spanning exons "
+               "are in the model; ensure_valid_locations' exon-order convention for input genes is not (non-bacterial cases "
+               "carry no gene across the origin)",
                "strandless locations are read back as forward from GenBank text: the spec identifies None and +1 on that path",
                "the operator of compound locations (join/order) is not in the Lean location model: it is compared by the "
                "attribute dump of the real round trips only; a prepeptide is one opaque feature (its core) to the model",
@@ -639,7 +643,11 @@ class C10(Property):
         ngenes = rng.choice([0, 1, 2, 3, 4, 6])
         pos = rng.choice([0, 1, 3, unit])
         names: List[Tuple[str, int, Dict[str, Any]]] = []
-        spanning = circ and rng.random() < 0.35 and n >= 120
+        # the taxon of the run: the record is built, and read back on both paths, with the same one; a non-bacterial
+        # run does not accept input genes across the origin (exon order convention), areas across it are antiSMASH's own
+        if rng.random() < 0.3:
+            case["taxon"] = "fungi"
+        spanning = circ and rng.random() < 0.35 and n >= 120 and "taxon" not in case
         span_b = rng.choice([6, 9, 12]) if spanning else 0
         span_a = rng.choice([6, 9, 12]) if spanning else 0
         pos = max(pos, span_b + rng.choice([0, 1, 5]))
@@ -1533,10 +1541,11 @@ class C10(Property):
             first = rec.to_biopython()
             w1 = dump_bios(first)
             text1 = write_text(rec)
-            re_gb = read_text(text1)
+            taxon = case.get("taxon", "bacteria")
+            re_gb = read_text(text1, taxon)
             text2 = write_text(re_gb)
             json1 = json_text(rec)
-            re_json = read_json(json1)
+            re_json = read_json(json1, taxon)
             json2 = json_text(re_json)
             return {"state": state, "w1": w1, "re_gb": dump_record(re_gb), "re_json": dump_record(re_json),
                     "w2": dump_bios(re_json.to_biopython()), "text_fixed": text1 == text2, "json_fixed": json1 == json2,
@@ -1600,7 +1609,7 @@ class C10(Property):
         if "state" not in obs:
             return None
         line = {"f": "record", "rec": for_model(obs["state"]), "re_gb": for_model(obs["re_gb"]),
-                "re_json": for_model(obs["re_json"])}
+                "re_json": for_model(obs["re_json"]), "bacteria": case.get("taxon", "bacteria") == "bacteria"}
         if any(" " in (c["smiles"] or "") for c in obs["re_gb"]["cands"]):
             line["re_gb_smiles"] = dict(line["re_gb"], cands=[dict(c, smiles=c["smiles"].replace(" ", "") if c["smiles"] else c["smiles"])
                                                               for c in line["re_gb"]["cands"]])
